@@ -98,8 +98,8 @@ def gen_case(rng, be, workers, persist, big):
             data = [[gval(rng, sl[i] if j == 0 else None) for i in range(ls[j])] for j in range(w)]
         else:
             ws = [w] * n
-            if rng.random() < 0.07:
-                vw = valid_widths(f)
+            vw = valid_widths(f)
+            if len(vw) > 1 and n >= 2 and rng.random() < 0.2:
                 ws = [rng.choice(vw) for _ in range(n)]
             data = [[gval(rng, sl[i] if j == 0 else None) for j in range(ws[i])] for i in range(n)]
     return {"be": be, "workers": workers, "persist": persist, "op": op, "fn": f, "data": data, "kw": kw}
@@ -309,7 +309,7 @@ def run(ctx):
     tt = sum(o["t"] for o in obs)
     ctx.coverage.update({
         "evaluations": len(cases), "distinct_nontrivial": len(distinct),
-        "rule": "corpus (DESIGN §5.2 reproduction, kwargs, uneven, empty) then seeded generator: signature shapes nreq 0-3 / defaults 0-2 / *args / term or arithmetic; map, starmap, submit; lengths 0..12 (thorough ..40), uneven 25% of multi-iterable maps, ragged 7% of starmaps, 8% arity-malformed, delay slots descending/random/zero; non-trivial = observed completion order differs from submission order",
+        "rule": "corpus (DESIGN §5.2 reproduction, kwargs, uneven, empty) then seeded generator: signature shapes nreq 0-3 / defaults 0-2 / *args / term or arithmetic; map, starmap, submit; lengths 0..12 (thorough ..40), uneven 25% of multi-iterable maps, ragged 20% of starmaps whose function accepts several widths, 8% arity-malformed, delay slots descending/random/zero; non-trivial = observed completion order differs from submission order",
         "input_distribution": {**hist, "backends": by_be, "worker_counts": sorted(workers_seen)},
         "model_variant": m.group(1) if m else "?",
         "findings": {FINDINGS[k][0]: v for k, v in fcount.items()},
